@@ -552,18 +552,19 @@ func R08(group string) Rule {
 		case "finishUpload":
 			fn := P.MustFunc(core.PkgGcsemu, "(*GcsEmu).finishUpload")
 			c.Fn("(*GcsEmu).finishUpload")
+			scope := P.Scope(fn, func(f *ssa.Function) bool { return f.Pkg == nil || f.Pkg.Pkg.Path() != core.PkgGcsemu })
+			within := setOf(scope)
 			var run *ssa.Call
-			for _, ci := range core.AllCalls(fn) {
-				if ci.MethodOn(core.PkgGcsutil, "TransientLockMap", "Run") {
-					run, _ = ci.Instr.(*ssa.Call)
-				}
+			for _, ci := range core.CallsIn(scope, func(ci *core.CallInfo) bool { return ci.MethodOn(core.PkgGcsutil, "TransientLockMap", "Run") }) {
+				run, _ = ci.Instr.(*ssa.Call)
 			}
-			eqs := callsTo(fn, "bytes", "Equal")
+			eqs := scopeCallsTo(scope, "bytes", "Equal")
 			if run == nil || len(eqs) != 1 {
 				c.Unknown("R08", "finishUpload/md5", fn.Pos(), "expected one critical section and one bytes.Equal in finishUpload")
 				return
 			}
 			eq := eqs[0]
+			vf := eq.Parent() // the function that verifies: finishUpload itself or a helper it calls
 			// operands: one derives from md5.Sum(contents), contents being what is stored
 			fromSum := func(v ssa.Value) bool {
 				seen := map[ssa.Value]bool{}
@@ -577,8 +578,10 @@ func R08(group string) Rule {
 					switch x := v.(type) {
 					case *ssa.Call:
 						if sc := x.Call.StaticCallee(); sc != nil && sc.Pkg != nil && sc.Pkg.Pkg.Path() == "crypto/md5" && sc.Name() == "Sum" {
-							_, isParam := core.Resolve(x.Call.Args[0]).(*ssa.Parameter)
-							return isParam
+							return P.AllOrigins(x.Call.Args[0], within, func(o ssa.Value) bool {
+								pa, isParam := o.(*ssa.Parameter)
+								return isParam && pa.Parent() == fn
+							})
 						}
 					case *ssa.Slice:
 						return walk(x.X, d+1)
@@ -626,21 +629,40 @@ func R08(group string) Rule {
 			}
 			failSucc := ifEq.Block().Succs[1-passIdx]
 			failsWithErr := false
-			for _, r := range returnsIn(fn) {
+			for _, r := range returnsIn(vf) {
 				if ie, _ := isErrorReturn(r); ie && failSucc.Dominates(r.Block()) {
 					failsWithErr = true
 				}
 			}
-			reach := core.ReachableFrom(failSucc, true)
-			c.Check(failsWithErr && !reach[run.Block()], "R08", "finishUpload/md5-mismatch-rejected", ifEq.Pos(),
+			// where the verifying function's verdict is consumed in finishUpload: the critical section itself
+			// when the comparison is inline, otherwise it must lie on the nil edge of the helper's error
+			runReachableAfterFailure := false
+			sectionGuardedByHelper := true
+			if vf == fn {
+				runReachableAfterFailure = core.ReachableFrom(failSucc, true)[run.Block()]
+			} else {
+				for _, hs := range P.ExecSites(fn, eq, within) {
+					hcall, isCall := hs.(*ssa.Call)
+					if !isCall || hcall.Call.StaticCallee() != vf {
+						sectionGuardedByHelper = false
+						continue
+					}
+					for _, rs := range P.ExecSites(fn, run, within) {
+						if !errNilEdge(errResultOf(hcall), rs.Block()) {
+							sectionGuardedByHelper = false
+						}
+					}
+				}
+			}
+			c.Check(failsWithErr && !runReachableAfterFailure && sectionGuardedByHelper, "R08", "finishUpload/md5-mismatch-rejected", ifEq.Pos(),
 				"the mismatch edge returns an error and cannot reach the critical section that stores the object",
 				"on an MD5 mismatch the upload still reaches the critical section that stores the object (the previous object is overwritten by rejected content)")
 			// the only way round the comparison is the 'no MD5 declared' edge
 			var declared *ssa.If
-			for _, b := range fn.Blocks {
+			for _, b := range vf.Blocks {
 				if ifi, ok := b.Instrs[len(b.Instrs)-1].(*ssa.If); ok && b.Dominates(eq.Block()) {
-					if bin, ok := ifi.Cond.(*ssa.BinOp); ok && bin.Op == token.NEQ {
-						if s, ok := core.ConstString(bin.Y); ok && s == "" && loadsField(bin.X, "Md5Hash") {
+					if bin, ok := ifi.Cond.(*ssa.BinOp); ok && (bin.Op == token.NEQ || bin.Op == token.EQL) {
+						if s, ok := core.ConstString(bin.Y); ok && s == "" && P.AllOrigins(bin.X, within, func(o ssa.Value) bool { return loadsField(o, "Md5Hash") }) {
 							declared = ifi
 						}
 					}
@@ -650,8 +672,23 @@ func R08(group string) Rule {
 				c.Bad("R08", "finishUpload/md5-verified-when-declared", eq.Pos(), "cannot find the `obj.Md5Hash != \"\"` test that decides whether the comparison applies")
 				return
 			}
-			cut := []cfgEdge{{ifEq.Block(), ifEq.Block().Succs[passIdx]}, {declared.Block(), declared.Block().Succs[1]}}
-			c.Check(!reachableWithoutEdges(fn, run.Block(), cut), "R08", "finishUpload/md5-verified-when-declared", run.Pos(),
+			undeclaredIdx := 1 // `!= ""`: the false edge is 'nothing declared'
+			if declared.Cond.(*ssa.BinOp).Op == token.EQL {
+				undeclaredIdx = 0
+			}
+			cut := []cfgEdge{{ifEq.Block(), ifEq.Block().Succs[passIdx]}, {declared.Block(), declared.Block().Succs[undeclaredIdx]}}
+			okRound := true
+			if vf == fn {
+				okRound = !reachableWithoutEdges(fn, run.Block(), cut)
+			} else {
+				// the helper reports success only through one of the two edges
+				for _, r := range returnsIn(vf) {
+					if ie, _ := isErrorReturn(r); !ie && reachableWithoutEdges(vf, r.Block(), cut) {
+						okRound = false
+					}
+				}
+			}
+			c.Check(okRound, "R08", "finishUpload/md5-verified-when-declared", run.Pos(),
 				"every path to the storing critical section passes the comparison's success edge or the 'no MD5 declared' edge",
 				"a path reaches the storing critical section with a declared MD5 that was not compared")
 
@@ -814,4 +851,18 @@ func R08(group string) Rule {
 			panic(core.Broken("unknown R08 group %q", group))
 		}
 	}}
+}
+
+// errResultOf returns the error component of a call's result (the call itself
+// for a single error result, else the Extract of the last component).
+func errResultOf(call *ssa.Call) ssa.Value {
+	if tup, ok := call.Type().(*types.Tuple); ok {
+		for _, r := range core.Referrers(call) {
+			if ex, ok := r.(*ssa.Extract); ok && ex.Index == tup.Len()-1 {
+				return ex
+			}
+		}
+		return nil
+	}
+	return call
 }
